@@ -122,6 +122,6 @@ impl MediumHook {
 }
 
 pub fn run_case(case: &Case, stats: &mut Stats, hook: &mut MediumHook) -> Outcome {
-    let opts = RunOpts { cfg: case.cfg, garbage_seed: case.garbage_seed, shadow: false, oracles: OracleSet::C17, want_text: false };
+    let opts = RunOpts { cfg: case.cfg, garbage_seed: case.garbage_seed, shadow: false, oracles: OracleSet::C17, want_text: false, cmp_oracle: false };
     run_ops(&case.ops, &opts, stats, hook)
 }
